@@ -275,7 +275,7 @@ def run(rng, res, tier, shard, nshards):
     for _ in range(RANDOM[tier] // nshards):
         if not budget.more():
             break
-        size = rng.choice([3, 4, 6, 10, 20, 40, 60])
+        size = rng.choice([3, 4, 6, 10, 20, 40, 60] + ([150] if rng.random() < 0.1 else []))
         kinds = []
         tags = {}
         for i in range(size):
